@@ -670,6 +670,12 @@ func (g *graph) compile(ctx context.Context, opt *graphCompileOptions) (*composa
 		}
 	}
 
+	// the runner gets its own pre-node handler lists: compile may run again on the same
+	// graph and must not change what an earlier runner uses.
+	handlerPreNode := make(map[string][]handlerPair, len(g.handlerPreNode))
+	for key, handlers := range g.handlerPreNode {
+		handlerPreNode[key] = append([]handlerPair(nil), handlers...)
+	}
 	for key := range g.fieldMappingRecords {
 		// not allowed to map multiple fields to the same field
 		toMap := make(map[string]bool)
@@ -681,7 +687,7 @@ func (g *graph) compile(ctx context.Context, opt *graphCompileOptions) (*composa
 		}
 
 		// add map to input converter
-		g.handlerPreNode[key] = append(g.handlerPreNode[key], g.getNodeGenericHelper(key).inputFieldMappingConverter)
+		handlerPreNode[key] = append(handlerPreNode[key], g.getNodeGenericHelper(key).inputFieldMappingConverter)
 	}
 
 	key2SubGraphs := g.beforeChildGraphsCompile(opt)
@@ -777,7 +783,7 @@ func (g *graph) compile(ctx context.Context, opt *graphCompileOptions) (*composa
 		genericHelper: g.genericHelper,
 
 		preBranchHandlerManager: &preBranchHandlerManager{h: g.handlerPreBranch},
-		preNodeHandlerManager:   &preNodeHandlerManager{h: g.handlerPreNode},
+		preNodeHandlerManager:   &preNodeHandlerManager{h: handlerPreNode},
 		edgeHandlerManager:      &edgeHandlerManager{h: g.handlerOnEdges},
 	}
 
